@@ -293,6 +293,15 @@ fn c03_gen_hostile_peer(seed: u64, run: u64, thorough: bool) -> Plan {
     let setup = ASetup::sample(&mut r, run % 3 == 0, run % 2 == 0);
     let mut eps = setup.endpoints();
     eps[1].kind = EndpointKind::Raw;
+    // a hostile handshake may advertise any limits, including 0 and 2^32-1
+    if run % 8 == 1 {
+        if let EndpointKind::Hc { spec, .. } = &mut eps[0].kind {
+            spec.tx_bandwidth_limit = *r.pick(&[0u32, 0, 1, 22, 23, u32::MAX]);
+            if r.chance(0.3) {
+                spec.tx_alloc_limit = *r.pick(&[0u64, 1, u32::MAX as u64]);
+            }
+        }
+    }
     plan.endpoints = eps;
     plan.push(0, 0, Op::Create { ep: 0 });
     plan.push(0, 1, Op::Create { ep: 1 });
@@ -477,7 +486,7 @@ pub fn c03() -> CheckDef {
 fn c04_plan(scenario: &str, seed: u64, run: u64, thorough: bool, rewrite: bool) -> Plan {
     let mut r = Rng::keyed(&[seed, run, 0xc04]);
     let lens = boundary_lengths();
-    let slot = (run / 2) as usize;
+    let slot = (run / 3) as usize;
     let swept: u32 = if slot % 40 == 39 {
         // occasionally the maximum: a full megabyte (691 fragments), or a random large size
         if r.chance(0.5) { 1_000_000 } else { r.range(70_000, 1_000_000) as u32 }
@@ -574,6 +583,48 @@ fn c04_gen_lengths(seed: u64, run: u64, thorough: bool) -> Plan {
 fn c04_gen_rewrite(seed: u64, run: u64, thorough: bool) -> Plan {
     c04_plan("a_rewrite", seed, run, thorough, true)
 }
+/// World B: the swept lengths through the public API (max_packet_size up to 1 MB).
+fn c04_gen_b(seed: u64, run: u64, thorough: bool) -> Plan {
+    let mut plan = b_transport("C04", "b_lengths", seed, run, thorough, true, false, true);
+    let lens = boundary_lengths();
+    let slot = (run / 3) as usize;
+    let swept = if slot % 40 == 39 { 1_000_000 } else { lens[slot % lens.len()] };
+    // the swept packet on every connection, in both directions, inside the fault phase
+    let mut r = Rng::keyed(&[seed, run, 0xb04]);
+    let heal = plan.timeline.iter().find(|t| matches!(&t.op, Op::Mark { name } if name == "heal")).map(|t| t.t_us).unwrap_or(5_000_000);
+    let short_ch = plan.param("short_ch", 0.0) as u8;
+    let clients: Vec<(usize, u64, u64)> = plan.endpoints.iter().enumerate().filter_map(|(i, e)| match &e.kind {
+        EndpointKind::Client { cfg, .. } => Some((i, cfg.max_packet_size, cfg.max_receive_alloc)),
+        _ => None,
+    }).collect();
+    let (s_pkt, s_alloc) = match &plan.endpoints[0].kind { EndpointKind::Server { cfg, .. } => (cfg.max_packet_size, cfg.max_receive_alloc), _ => (0, 0) };
+    let mut tag = 900_000u32;
+    for (c, c_pkt, c_alloc) in clients {
+        let up = (swept as u64).min(c_pkt).min(s_alloc) as u32;
+        let down = (swept as u64).min(s_pkt).min(c_alloc) as u32;
+        for (ep, to, len) in [(c, None, up), (0usize, Some(c), down)] {
+            let mode = if len < 4 { MODE_RELIABLE } else { *r.pick(&[MODE_RELIABLE, MODE_RELIABLE, MODE_PERSISTENT]) };
+            if len < 4 {
+                continue;
+            }
+            let ch = if len < 12 { short_ch } else { r.below(4) as u8 };
+            plan.push(r.range(1_000_000, heal.max(1_000_001)), 0x4000_0000 + tag, Op::Send { ep, to, ch, mode, len, tag });
+            tag += 1;
+        }
+    }
+    if swept >= 70_000 {
+        plan.end_us += 128 * 800 * 1_000_000;
+        let end = plan.end_us;
+        for t in plan.timeline.iter_mut() {
+            if let Op::StepEvery { until_us, .. } = &mut t.op {
+                *until_us = end;
+            }
+        }
+    }
+    plan.params.insert("swept_len".into(), swept as f64);
+    plan.sort();
+    plan
+}
 fn c04_oracles(plan: &Plan) -> Vec<Box<dyn Oracle>> {
     with_states(vec![Box::new(TransportOracle::new("C04", TransportClauses { order: true, frame_size: true, reliable_live: true, ..Default::default() }, plan))])
 }
@@ -587,6 +638,8 @@ pub fn c04() -> CheckDef {
         families: vec![
             Family { name: "a_lengths", world: "A", weight: 1, gen: c04_gen_lengths, oracles: c04_oracles, adversary: None, keep_workload: false, custom: None,
                 what: "payload length swept over {0,1,2,11..13,63..65,255..257, k*1448-2..k*1448+2 for k=1..8,16,45, 1 MB} by run index; fragments permuted, duplicated, partially lost and resent, interleaved with other packets, flush budgets that cut packets; then a clean link until everything Reliable has arrived" },
+            Family { name: "b_lengths", world: "B", weight: 1, gen: c04_gen_b, oracles: c04_oracles, adversary: None, keep_workload: false, custom: None,
+                what: "the same length sweep through real Client/Server (both directions, several clients), bounded by the configured max_packet_size / max_receive_alloc" },
             Family { name: "a_rewrite", world: "A", weight: 1, gen: c04_gen_rewrite, oracles: c04_oracles, adversary: Some(c04_adv), keep_workload: true, custom: None,
                 what: "same sweep, plus a hostile middlebox that appends to genuine frames a forged fragment for a packet in progress whose header disagrees with the first fragment seen (last-fragment id, channel or parent leads)" },
         ],
@@ -594,7 +647,7 @@ pub fn c04() -> CheckDef {
         hang_is_violation: false,
         quick_runs: 2000,
         thorough_runs: 40_000,
-        rule: "one case = one simulated run; the swept length is (run index / 2) mod |boundary set|; distinct = distinct run digest; non-trivial = at least 10 packets delivered",
+        rule: "one case = one simulated run; the swept length is (run index / 3) mod |boundary set|; distinct = distinct run digest; non-trivial = at least 10 packets delivered",
         real_code: REAL_A,
         stubs: STUB_A,
         assumptions: vec![
@@ -1527,6 +1580,26 @@ fn c19_gen(seed: u64, run: u64, thorough: bool) -> Plan {
     }
     plan
 }
+/// World B: servers dropped with live clients, clients destroyed mid-transfer, Server::drop().
+fn c19_gen_b(seed: u64, run: u64, thorough: bool) -> Plan {
+    let mut plan = world_b_lifecycle("C19", "b_heap", seed, run, thorough);
+    let mut r = Rng::keyed(&[seed, run, 0xb19]);
+    // larger, multi-fragment packets that are not multiples of the fragment size
+    for t in plan.timeline.iter_mut() {
+        if let Op::Send { len, .. } = &mut t.op {
+            if r.chance(0.4) {
+                *len = (r.range(1, 5) * FRAG + r.range(1, FRAG - 1)) as u32;
+            }
+        }
+    }
+    // sometimes the server itself goes away while clients are connected
+    if r.chance(0.3) {
+        let t = r.range(3_000_000, plan.end_us.max(3_000_001));
+        plan.push(t, 1, Op::Destroy { ep: 0 });
+        plan.sort();
+    }
+    plan
+}
 fn c19_oracles(_plan: &Plan) -> Vec<Box<dyn Oracle>> {
     vec![Box::new(HeapOracle::new("C19"))]
 }
@@ -1534,7 +1607,9 @@ fn c19_oracles(_plan: &Plan) -> Vec<Box<dyn Oracle>> {
 pub fn c19() -> CheckDef {
     CheckDef {
         property: "C19",
-        families: vec![Family { name: "a_heap", world: "A", weight: 1, gen: c19_gen, oracles: c19_oracles, adversary: None, keep_workload: false, custom: None,
+        families: vec![Family { name: "b_heap", world: "B", weight: 1, gen: c19_gen_b, oracles: c19_oracles, adversary: None, keep_workload: false, custom: None,
+            what: "real Client/Server lifecycles: multi-fragment traffic, disconnects from both sides, Server::drop(), clients destroyed mid-transfer and recreated, the server destroyed with live clients; same allocator oracle" },
+        Family { name: "a_heap", world: "A", weight: 2, gen: c19_gen, oracles: c19_oracles, adversary: None, keep_workload: false, custom: None,
             what: "multi-fragment sizes that are not multiples of the fragment size in every mode; delivered, skipped, window advanced over partial packets (loss of Unreliable/Persistent fragments), connection dropped mid-transfer; a layout-checking allocator watches every deallocation, and after dropping every endpoint the bytes they allocated must all be back" }],
         panic_is_violation: no_panics,
         hang_is_violation: false,
